@@ -60,15 +60,19 @@ def value_nodes_from_path(sg, focus, path_val, target_graph, inverse: bool = Fal
                 raise ReportableRuntimeError("A list of SHACL Paths must contain at least two path items.")
             else:
                 go_deeper = False
-        this_level_nodes = value_nodes_from_path(
-            sg, focus, first_node, target_graph, inverse=inverse, recursion=recursion + 1
-        )
         if not go_deeper:
-            return this_level_nodes
+            return value_nodes_from_path(
+                sg, focus, first_node, target_graph, inverse=inverse, recursion=recursion + 1
+            )
+        # The inverse of a sequence path walks the sequence back to front: ^(a/b) == ^b/^a
+        first_step, next_step = (rest_node, first_node) if inverse else (first_node, rest_node)
+        this_level_nodes = value_nodes_from_path(
+            sg, focus, first_step, target_graph, inverse=inverse, recursion=recursion + 1
+        )
         found_value_nodes = set()
         for tln in iter(this_level_nodes):
             value_nodes = value_nodes_from_path(
-                sg, tln, rest_node, target_graph, inverse=inverse, recursion=recursion + 1
+                sg, tln, next_step, target_graph, inverse=inverse, recursion=recursion + 1
             )
             found_value_nodes.update(value_nodes)
         return found_value_nodes
